@@ -438,7 +438,7 @@ def build_module(D, importable=True, fail_kinds=(None,), max_items=7, allow_asyn
     m.add('')
     m.add('')
     kinds_pool = ['def', 'class', 'def', 'async', 'class', 'deco', 'cond', 'try', 'main', 'asyncdeco', 'with', 'assign',
-                  'comment', 'deco2', 'subclass', 'cond_else', 'cond_elif', 'try_else']
+                  'comment', 'deco2', 'subclass', 'cond_else', 'cond_elif', 'try_else', 'not_main', 'twins']
     for i in range(D.int(2, max_items)):
         kind = D.choice(kinds_pool)
         if kind in ('async', 'asyncdeco') and not allow_async:
@@ -495,6 +495,31 @@ def build_module(D, importable=True, fail_kinds=(None,), max_items=7, allow_asyn
             m.add('    pass')
             m.features.add('conditional')
             m.features.add('conditional_else_branch')
+        elif kind == 'not_main':
+            # the opposite of the main guard: this block does execute on import
+            m.add(D.choice(["if __name__ != '__main__':", "if '__main__' != __name__:"]))
+            m.emit_func('    ', name, name)
+            m.features.add('conditional')
+            m.features.add('not_main_guard')
+        elif kind == 'twins':
+            # two distinct callables whose docstrings are byte for byte the same
+            for nm in (name, name + '_twin'):
+                m.add('def {}(self=None):'.format(nm))
+                m.add('    """')
+                m.add('    A summary shared by two functions.')
+                m.add('')
+                m.add('    Example:')
+                first = m.add("        >>> print('twin {}')".format(i))
+                m.add('        twin {}'.format(i))
+                m.add('    """')
+                m.add('    return 1')
+                m.add('')
+                ent = {'callname': nm, 'num': 0, 'first': first, 'body': first, 'fail_line': None, 'exc': None, 'lead': False,
+                       'prompts': [first], 'spans': [[first, first + 1]]}
+                m.inv['google'].append(dict(ent))
+                m.inv['freeform'].append(dict(ent))
+                m.callnames.append(nm)
+            m.features.add('identical_docstrings')
         elif kind == 'try_else':
             m.add('try:')
             m.add('    pass')
